@@ -227,9 +227,15 @@ Fixpoint loop_g (fuel : nat) (P : params) (X : data) (choose : state -> option k
 Definition fit_g (P : params) (X : data) (choose : state -> option ksplit) : outcome :=
   loop_g (S (eff_max_leaves_g P (length X))) P X choose (init_g P X).
 Definition route_leaf_g (t : tree) (x : row) : option nat := route_g (length t) t x 0.
-(* Kauri.predict = tree_.predict *)
+(* Kauri.predict: X = check_array(X, dtype=np.float64); return tree_.predict(X).
+   fit chose the thresholds among float64 feature values (validate_data(..., dtype=np.float64)); the model has ONE number
+   system (Z, through the order-preserving rank encoding of float64 values), so it describes predict only when the query
+   rows are compared in that same number system: without the conversion (hole false) a float32 row would be compared with
+   the threshold rounded to float32, which this model does not describe -> None (every predict theorem then fails). *)
 Definition predict_row_g (t : tree) (x : row) : option nat :=
-  match route_leaf_g t x with Some a => Some (nd_target (get_node t a)) | None => None end.
+  if r_predict_float64 R
+  then match route_leaf_g t x with Some a => Some (nd_target (get_node t a)) | None => None end
+  else None.
 Definition predict_g (t : tree) (X : data) : list (option nat) := map (predict_row_g t) X.
 (* number of training rows whose routing passes through node a *)
 Definition node_count_g (t : tree) (X : data) (a : nat) : nat :=
@@ -330,7 +336,8 @@ Definition golden_fit_rules : FitRules := {|
   r_child_depth_l := fun father_depth : nat => father_depth + 1; r_child_depth_r := fun father_depth : nat => father_depth + 1;
   r_child_target_l := SLeft; r_child_target_r := SRight;
   r_route_left := fun x th : Z => Z.leb x th;
-  r_route_true := SLeft; r_route_false := SRight |}.
+  r_route_true := SLeft; r_route_false := SRight;
+  r_predict_float64 := true |}.
 
 (* the oracle used by the correspondence: replay a recorded sequence of splits (iteration = n_leaves-1),
    refusing any recorded split that is not admissible in the current state *)
